@@ -52,7 +52,8 @@ LinePool == <<
   S("@docs: ") \o Q1 \o S("http://a.b/x") \o Q1 \o S(";"),
   S("@docs: ") \o Q1 \o S("http://a.b/y") \o Q1 \o S(";"),
   S("@w: d0.5;"),
-  S("@w: d0.50;") >>
+  S("@w: d0.50;"),
+  S("@ name") \o <<9>> \o S(": ") \o Q1 \o S("spaced") \o Q1 \o S(" ;") >>
 
 Term == IF style = 2 THEN <<13, 10>> ELSE <<10>>
 RECURSIVE Assemble(_)
